@@ -138,9 +138,17 @@ COMMIT;
     fn set_ignore_dups(&mut self) -> Result<()> {
         if self.ignore_dups {
             // TODO Validate: ignore dups only in the same session_id ?
-            self.conn.execute_batch(
-                "CREATE UNIQUE INDEX IF NOT EXISTS ignore_dups ON history(entry, session_id);",
-            )?;
+            const CREATE_INDEX: &str =
+                "CREATE UNIQUE INDEX IF NOT EXISTS ignore_dups ON history(entry, session_id);";
+            if self.conn.execute_batch(CREATE_INDEX).is_err() {
+                // duplicates were recorded while the index was off: keep the newest occurrence
+                // of each (what add() does once the index is on) instead of failing for ever
+                self.conn.execute_batch(
+                    "DELETE FROM history WHERE rowid NOT IN (SELECT max(rowid) FROM history GROUP \
+                     BY entry, session_id);",
+                )?;
+                self.conn.execute_batch(CREATE_INDEX)?;
+            }
         } else {
             self.conn
                 .execute_batch("DROP INDEX IF EXISTS ignore_dups;")?;
